@@ -14,11 +14,12 @@ from pyvc import sorts as S
 
 
 def declare(reg):
+    S.declare_record('TLConfig', [('comments', 'int'), ('eol_comments', 'int')])
     S.declare_record('TLInput', [
-        ('ignorecase', 'bool'), ('nameguard', 'bool'), ('namechars', 'strset'),
-        ('whitespace_re', 'int'), ('comments_re', 'int'), ('eol_comments_re', 'int'),
+        ('ignorecase', 'bool'), ('nameguard', 'bool'), ('_namechar_set', 'strset'),
+        ('whitespace_re', 'int'), ('config', 'TLConfig'),
     ])
-    S.declare_record('Cursor', [('pos', 'int'), ('len', 'int'), ('textstr', 'str'), ('input', 'TLInput')], mutable=True)
+    S.declare_record('Cursor', [('pos', 'int'), ('len', 'int'), ('textstr', 'str'), ('input', 'TLInput'), ('_namechars', 'strset')], mutable=True)
     S.declare_record('ASTD', [('dkeys', 'strset'), ('dvals', 'strmap')], mutable=True)
     S.declare_record('AlertR', [('level', 'int'), ('message', 'Val')])
     S.declare_record('Frame', [
@@ -74,9 +75,10 @@ def declare(reg):
     }
     reg.classes['Cursor'] = {
         'mro': ['tatsu/input/textlines.py:TextLinesCursor'],
-        'wf': ['self.len == len(self.textstr)', '0 <= self.pos', 'self.pos <= self.len'],
+        'wf': ['self.len == len(self.textstr)', '0 <= self.pos', 'self.pos <= self.len', 'self._namechars == self.input._namechar_set'],
         'isa': ['Cursor', 'TextLinesCursor'],
     }
+    reg.opaque_attrs[('*', 'namechars')] = ('attr', 'strset')
     reg.classes['ASTD'] = {'mro': ['tatsu/contexts/ast.py:AST'], 'isa': ['AST', 'dict']}
     reg.classes['Frame'] = {
         'mro': ['tatsu/contexts/state.py:ParseState'],
